@@ -53,6 +53,7 @@ class LoopSpec:
 class LoopState:
     def __init__(self):
         self.coll = None
+        self.ordered = False
         self.seen = None
         self.cur = None
         self.var0 = None
@@ -153,6 +154,9 @@ class VC:
         C.loop_states[k] = st
         st.is_for = True
         st.coll = iterable._vc_iter()
+        # a list / tuple / range / enumerate is iterated in index order (CPython's sequence iterator); sets, dicts and
+        # graph node views in an arbitrary order
+        st.ordered = getattr(st.coll, "_indexed", None) is not None and st.coll.sort == sym.I and st.coll.count is not None
         return None
 
     def loop_head(self, k, env):
@@ -162,6 +166,8 @@ class VC:
         if st.is_for:
             st.seen = z3.K(st.coll.sort, False)
             st.nseen = z3.IntVal(0)
+            if getattr(st, "ordered", False):
+                st.seen = self._prefix(st.nseen)
         for cl in spec.inv(env, st):
             C.check(cl[1], f"{self.fn_name}.loop{k}.entry.{cl[0]}", cl[2] if len(cl) > 2 else (), kind="inv")
         mods = list(spec.modifies(env))
@@ -175,7 +181,12 @@ class VC:
         st.mod_ids = {id(p) for p in mods} | {id(q) for p in mods for q in (p._vc_parts() if hasattr(p, "_vc_parts") else ())}
         spec.ghost_havoc(env, st)
         env.update(new)
-        if st.is_for:
+        if st.is_for and getattr(st, "ordered", False):
+            # sequence iterator: after j iterations exactly the indices 0 .. j-1 have been visited
+            st.nseen = C.fresh("nseen", sym.I)
+            C.assume(st.nseen >= 0, st.nseen <= st.coll.count)
+            st.seen = self._prefix(st.nseen)
+        elif st.is_for:
             st.seen = C.fresh("seen", sym.SetSort(st.coll.sort))
             v = bv("v!l", st.coll.sort)
             C.assume(z3.ForAll([v], z3.Implies(st.seen[v], st.coll.pred(v))))
@@ -193,8 +204,16 @@ class VC:
         C.label(f"L{k}")
         return tuple(new[c] for c in spec.carried)
 
+    @staticmethod
+    def _prefix(n):
+        j = bv("j!pf", sym.I)
+        return z3.Lambda([j], z3.And(j >= 0, j < n))
+
     def for_has_next(self, k):
         st = C.loop_states[k]
+        if getattr(st, "ordered", False):
+            st.cur = st.nseen
+            return C.fork(st.nseen < st.coll.count, f"loop{k} has next", else_assume=(st.nseen == st.coll.count))
         st.cur = C.fresh("cur", st.coll.sort)
         v = bv("v!l", st.coll.sort)
         done = z3.ForAll([v], z3.Implies(st.coll.pred(v), st.seen[v]))
@@ -215,8 +234,8 @@ class VC:
         spec = self.specs[k]
         st = C.loop_states[k]
         if st.is_for:
-            st.seen = z3.Store(st.seen, st.cur, True)
             st.nseen = st.nseen + 1
+            st.seen = self._prefix(st.nseen) if getattr(st, "ordered", False) else z3.Store(st.seen, st.cur, True)
         for cl in spec.inv(env, st):
             C.check(cl[1], f"{self.fn_name}.loop{k}.preserved.{cl[0]}", cl[2] if len(cl) > 2 else (), kind="inv")
         v1 = spec.variant(env, st)
@@ -250,6 +269,8 @@ _BUILTIN_OVERRIDES = {
     "all": sym.vc_all,
     "sum": sym.vc_sum,
     "tuple": sym.vc_tuple,
+    "range": sym.vc_range,
+    "type": sym.vc_type,
 }
 
 
